@@ -173,6 +173,7 @@ func cmdCheck(args []string) int {
 	noReplay := fs.Bool("noreplay", false, "skip native replay (debug)")
 	noEvidence := fs.Bool("noevidence", false, "do not write evidence (debug)")
 	fs.BoolVar(&forkProfile, "forks", false, "profile fork sites (debug)")
+	cross := fs.Int("cross", -1, "re-decide every n-th unsat answer with z3 5.1.0 and cvc5 (0 = off, -1 = default per tier)")
 	fs.Parse(args)
 	if t := os.Getenv("VERIF_TIER"); t != "" && !flagSet(fs, "tier") {
 		*tier = t
@@ -182,6 +183,13 @@ func cmdCheck(args []string) int {
 		seed, _ = strconv.Atoi(s)
 	}
 	loadKnown()
+	crossEvery = *cross
+	if crossEvery < 0 {
+		crossEvery = 200
+		if *tier == "thorough" {
+			crossEvery = 40
+		}
+	}
 	t0 := time.Now()
 	p, err := loadProgram(*tier)
 	if err != nil {
@@ -470,6 +478,11 @@ func cmdCheck(args []string) int {
 	if totInc > 0 {
 		fmt.Printf("DEGRADED property=%s inconclusive_obligations=%d\n", *prop, totInc)
 	}
+	crossDis := 0
+	for b, n := range crossStats.disagree {
+		crossDis += n
+		fmt.Printf("DEGRADED property=%s cross-solver disagreement: %s answered sat on %d conjunction(s) that z3 %s answered unsat (those verdicts were downgraded to unknown)\n", *prop, b, n, z3Version())
+	}
 	if forkProfile {
 		type kv struct {
 			k string
@@ -499,6 +512,9 @@ func cmdCheck(args []string) int {
 		}
 	}
 	wall := time.Since(t0).Seconds()
+	if crossEvery > 0 {
+		fmt.Printf("CROSS property=%s every=%d rechecked=%d agree=%v unknown=%v disagree=%v time_s=%.1f\n", *prop, crossEvery, crossStats.checked, crossStats.agree, crossStats.unknown, crossStats.disagree, crossStats.time.Seconds())
+	}
 	fmt.Printf("SUMMARY property=%s tier=%s harnesses=%d paths=%d ssa_instrs=%d obligations=%d discharged=%d violations_confirmed=%d unconfirmed=%d unsupported_paths=%d queries=%d solver_s=%.1f wall_s=%.1f\n",
 		*prop, *tier, len(sums), totalStates, totalSteps, totAss, totDis, confirmed, unconfirmed, totUns, globalStats.queries, globalStats.solverTime.Seconds(), wall)
 	if !*noEvidence {
@@ -533,7 +549,7 @@ func cmdCheck(args []string) int {
 				"inconclusive":                  totInc,
 				"unsupported_paths":             totUns,
 				"unwinding_or_depth_limit_hits": totLim,
-				"exhaustive":                    totUns == 0 && totInc == 0 && totLim == 0 && !truncated,
+				"exhaustive":                    totUns == 0 && totInc == 0 && totLim == 0 && !truncated && crossDis == 0,
 				"explanation":                   "states = terminal symbolic paths of the harnesses (each covers all values of its symbolic leaves under its path condition); transitions = SSA instructions interpreted; traces_validated = native replays (counterexamples + witness models cross-checked against the compiled real code)",
 				"functions_encoded":             sortedKeys(funcs),
 				"environment_stubs_used":        sortedKeys(stubs),
@@ -544,6 +560,16 @@ func cmdCheck(args []string) int {
 				"solver_errors":                 globalStats.errors,
 				"solver_unknowns":               globalStats.unknowns,
 				"solver":                        "z3 " + z3Version(),
+				"cross_solver_recheck": map[string]interface{}{
+					"every_nth_unsat_answer": crossEvery,
+					"solvers":                crossBins,
+					"conjunctions_rechecked": crossStats.checked,
+					"agree_unsat":            crossStats.agree,
+					"unknown_or_timeout":     crossStats.unknown,
+					"disagree_sat":           crossStats.disagree,
+					"time_s":                 crossStats.time.Seconds(),
+					"note":                   "sampled unsat answers of the deciding solver (z3 4.8.12) are re-decided by z3 5.1.0 and cvc5 1.0 on the same conjunction; a sat answer downgrades the verdict to unknown (inconclusive); unknown/timeout of a re-checking solver leaves the verdict as it was",
+				},
 				"native_witness_mismatches":     mismatches,
 				"unconfirmed_counterexamples":   unconfirmed,
 				"violations_detail":             vl,
